@@ -218,7 +218,7 @@ pub struct Plan {
 pub fn plan(tier: &str) -> Plan {
     if tier == "miri" {
         // interpreted: about four orders of magnitude slower - tiny but still reaching every op and leave path
-        Plan { exhaustive_depth: 2, random_cases: 96, random_len: (10, 40) }
+        Plan { exhaustive_depth: 1, random_cases: 96, random_len: (10, 40) }
     } else if tier == "thorough" {
         Plan { exhaustive_depth: 4, random_cases: 40_000, random_len: (20, 400) }
     } else {
@@ -232,7 +232,7 @@ pub fn run(prop: Prop, seed: u64, tier: &str, shard: usize, nshards: usize) -> S
     let plan = plan(tier);
 
     // --- part 0 (C05 only): shard capacities add up to the configured capacity -------------------
-    if prop == Prop::C05 {
+    if prop == Prop::C05 && tier != "miri" {
         let mut idx = 0usize;
         for algo in ALGOS {
             for shards in 1..=4usize {
